@@ -415,12 +415,13 @@ def e2e(ctx, tool, nconn, nvar):
 
 
 # ----------------------------------------------------------------------------- driver
-def reasm_corr(ctx, scale=1, frac=1.0):
+def reasm_corr(ctx, scale=1, frac=1.0, oracle=True):
     """L2: the real Session (handle_packet + get_tls_records on real Packet objects) against TLX.Reassembly.
     `frac` < 1 runs a proportionally smaller sample (used by the checks of C07 and C08, whose theorems rest on the
     same model)."""
     impl = Impl()
     rng = ctx.rng
+    oracle_on = oracle
     batches = []        # (point, case, schedule, impl canonical)
 
     def add(point, case, label, oracle=True, malformed=False):
@@ -431,7 +432,7 @@ def reasm_corr(ctx, scale=1, frac=1.0):
             ctx.hist("features", "malformed")
             out = canon(log, crash)
         else:
-            sched, out = check_case(ctx, impl, case, label, oracle)
+            sched, out = check_case(ctx, impl, case, label, oracle and oracle_on)
         batches.append((point, case, sched, out))
 
     sz = lambda q, t: max(1, int(ctx.n(q, t) * scale * frac))
